@@ -207,6 +207,10 @@ class Writer:
                 self.fields.append(Field("array", ev, arr=recv, inloop=bool(ev.loops)))
             elif any(a == self.f for a in args) and ev["name"] not in ("builtins.print",) and not ev["resolved"]:
                 self.other_file_ops.append(ev)  # (repo helpers are inlined: their own events are examined)
+            elif any(tm.contains(a, lambda x: is_call(x, ".fileno") and x.args[0].args[0] == self.f) for a in args) and not ev["resolved"] \
+                    and (ev["name"] or "") not in ("os.fsync", "os.fdatasync", "os.fstat", "os.isatty", "os.fspath"):
+                # the descriptor handed to an OS call that can resize / write the file behind the writer's back
+                self.other_file_ops.append(ev)
 
     # dtype of a written array, from the shape of its term and the guards in force
     def array_dtype(self, t, guards=()):
@@ -523,8 +527,15 @@ def _writer_rules(W, C, info):
         C.add("R-C10-a", UNDECIDED, where, cons_row, "row-id dump is %s in loops %s: not a recognised per-key form" % (tm.show(rowids.arr)[:120], rowids.ev.loops))
 
     # -- R-C11-e append-only, in order
-    C.ok(not W.other_file_ops, "R-C11-e", where, "no seek/truncate/other file operation in save",
-         "only write/tofile/tell touch the file", "unexpected file operation: %s" % [e.src()[:60] for e in W.other_file_ops])
+    resize = [e for e in W.other_file_ops if any(k in (e["name"] or "") for k in ("fallocate", "truncate"))]
+    if resize:
+        C.add("R-C11-e", VIOLATED, "%s@%d" % (where, resize[0].line), "no seek/truncate/other file operation in save",
+              "%s gives the file its final length before the payload is written: a save cut short (interrupt, kill, its own 'Illegal indexed data' abort) leaves a file of 16 + size bytes, zero-filled, "
+              "which the loader maps successfully - the 'shorter than 16 + size' guard never fires" % resize[0]["name"],
+              {"example": "interrupt save() after the header: load returns an empty index (or the right keys with zero row ids) instead of raising"})
+    else:
+        C.ok(not W.other_file_ops, "R-C11-e", where, "no seek/truncate/other file operation in save",
+             "only write/tofile/tell touch the file", "unexpected file operation: %s" % [e.src()[:60] for e in W.other_file_ops])
     seqs = [x.ev.seq for x in fields]
     C.ok(seqs == sorted(seqs), "R-C11-e", where, "fields are written in specification order", "", "")
     # all fields unconditional (except raise guards)
